@@ -197,7 +197,7 @@ parts = [
               ("C02:no_delivery", "deliveries_complete(old(out).app_actions@) ==> deliveries_complete(final(out).app_actions@)")],
      extra=[("R6", "build_local_ready_props(&self.config)", "build_local_ready_props(&*self.config)", 1)],
      hints=[("bc", "@fn_start", 0, "", "broadcast use lemma_delivered_push, lemma_sends_push, lemma_n_gated_push;")]),
-  Fn(EN, "process_data", impl=IMPL, emit_impl="impl ZmtpEngine",
+  Fn(EN, "process_data", impl=IMPL, emit_impl="impl ZmtpEngine", safety_props=["C02", "C04", "C06", "C07"],
      requires=["n_gated(old(out).app_actions@) > 0 ==> old(self).auth_ok()", "old(self).inv()", "old(self).phase == ZmtpPhase::Data"],
      ensures=handler_post([
        # while the connection stays open every data frame read is either delivered or kept for the message in progress, in order
@@ -241,7 +241,7 @@ parts = [
        ("end", "@loop_end:0", 0, "",
         "proof { assert(delivered_frames(out.app_actions@) + self.partial_batch@ =~= (delivered_frames(acts0) + part0).push(m0)); }"),
      ]),
-  Fn(EN, "process_v2_identity", impl=IMPL, emit_impl="impl ZmtpEngine",
+  Fn(EN, "process_v2_identity", impl=IMPL, emit_impl="impl ZmtpEngine", safety_props=["C02", "C04", "C06", "C07"],
      requires=["n_gated(old(out).app_actions@) > 0 ==> old(self).auth_ok()", "old(self).inv()", "old(self).phase == ZmtpPhase::V2Identity"],
      ensures=handler_post([("C19:no_heartbeat_state_on_v2", "final(self).version == old(self).version")]),
      extra=CORK + [
@@ -249,7 +249,7 @@ parts = [
        ("R5", "crate::Msg::from_vec", "Msg::from_vec", 1),
      ],
      hints=[("bc", "@fn_start", 0, "", "broadcast use lemma_delivered_push, lemma_sends_push, lemma_n_gated_push;")]),
-  Fn(EN, "process_ready", impl=IMPL, emit_impl="impl ZmtpEngine",
+  Fn(EN, "process_ready", impl=IMPL, emit_impl="impl ZmtpEngine", safety_props=["C02", "C04", "C06", "C07"],
      requires=["n_gated(old(out).app_actions@) > 0 ==> old(self).auth_ok()", "old(self).inv()", "old(self).phase == ZmtpPhase::Ready"],
      ensures=handler_post(),
      extra=CORK + [
@@ -260,7 +260,7 @@ parts = [
        "invariant": ["n_gated(old(out).app_actions@) > 0 ==> old(self).auth_ok()", "old(self).auth_ok() ==> self.auth_ok()", "self.revision_sent == old(self).revision_sent && self.version == old(self).version && self.is_server == old(self).is_server", "self.inv()", "self.phase == ZmtpPhase::Ready", "self.config == old(self).config", "out.app_actions@ == old(out).app_actions@"],
        "decreases": "self.framer.budget(self.network_read_accumulator@)"}},
      hints=[("bc", "@loop_start:0", 0, "", "broadcast use lemma_delivered_push, lemma_sends_push, lemma_n_gated_push;")]),
-  Fn(EN, "emit_security_token", impl=IMPL, emit_impl="impl ZmtpEngine",
+  Fn(EN, "emit_security_token", impl=IMPL, emit_impl="impl ZmtpEngine", safety_props=["C02", "C04", "C06", "C07"],
      requires=["n_gated(old(out).app_actions@) > 0 ==> old(self).auth_ok()", "old(self).inv()", "old(self).phase == ZmtpPhase::Security"],
      ensures=[HS_FRAME, 
        ("C06:inv_preserved", "final(self).inv()"),
@@ -275,7 +275,7 @@ parts = [
      ],
      extra=[("R5", re.compile(r"\n\s*use crate::\{Msg, MsgFlags\};"), "", 1)],
      hints=[("bc", "@fn_start", 0, "", "broadcast use lemma_delivered_push, lemma_sends_push, lemma_n_gated_push;")]),
-  Fn(EN, "check_security_complete", impl=IMPL, emit_impl="impl ZmtpEngine",
+  Fn(EN, "check_security_complete", impl=IMPL, emit_impl="impl ZmtpEngine", safety_props=["C02", "C04", "C06", "C07"],
      requires=["n_gated(old(out).app_actions@) > 0 ==> old(self).auth_ok()", "old(self).inv()", "old(self).phase == ZmtpPhase::Security"],
      ensures=handler_post([
        # the Ready phase is entered only on the mechanism's own completion report
@@ -284,7 +284,7 @@ parts = [
         "&& final(self).network_read_accumulator == old(self).network_read_accumulator"),
      ]),
      hints=[("bc", "@fn_start", 0, "", "broadcast use lemma_delivered_push, lemma_sends_push, lemma_n_gated_push;")]),
-  Fn(EN, "process_security", impl=IMPL, emit_impl="impl ZmtpEngine",
+  Fn(EN, "process_security", impl=IMPL, emit_impl="impl ZmtpEngine", safety_props=["C02", "C04", "C06", "C07"],
      requires=["n_gated(old(out).app_actions@) > 0 ==> old(self).auth_ok()", "old(self).inv()", "old(self).phase == ZmtpPhase::Security"],
      ensures=handler_post(),
      extra=[("R2", re.compile(r"self\s*\.security_mechanism\s*\.error_reason\(\)\s*\.unwrap_or\(\"unknown\"\)\s*\.to_owned\(\)", re.S), "verif_fmt()", 1)],
@@ -296,7 +296,7 @@ parts = [
        "decreases": "self.framer.budget(self.network_read_accumulator@)"}},
      hints=[("bc", "@fn_start", 0, "", "broadcast use lemma_delivered_push, lemma_sends_push, lemma_n_gated_push;"),
             ("bc2", "@loop_start:0", 0, "", "broadcast use lemma_delivered_push, lemma_sends_push, lemma_n_gated_push;")]),
-  Fn(EN, "process_greeting", impl=IMPL, emit_impl="impl ZmtpEngine",
+  Fn(EN, "process_greeting", impl=IMPL, emit_impl="impl ZmtpEngine", safety_props=["C02", "C04", "C06", "C07"],
      requires=["n_gated(old(out).app_actions@) > 0 ==> old(self).auth_ok()", "old(self).inv()", "old(self).phase == ZmtpPhase::Greeting"],
      ensures=handler_post(hs_frame=False, extra=[
        # C05 staged greeting: the revision byte needs only the peer's 10-byte signature, the v3 tail only its revision byte
@@ -323,7 +323,7 @@ parts = [
              "proof { assert(all_more(self.partial_batch@)); assert(self.version == Some(ZmtpVersion::V3)); assert(self.inv()); }"),
             ("v2", "re:self\\.process_v2_identity\\(out\\);", 0, "before",
              "proof { assert(all_more(self.partial_batch@)); }")]),
-  Fn(EN, "on_network_bytes", impl=IMPL, emit_impl="impl ZmtpEngine",
+  Fn(EN, "on_network_bytes", impl=IMPL, emit_impl="impl ZmtpEngine", safety_props=["C02", "C04", "C06", "C07"],
      requires=["old(self).inv()"],
      ensures=[
        ("C06+C04+C02:inv_preserved", "final(self).inv()"),
@@ -346,7 +346,7 @@ parts = [
                      "&& final(self).partial_batch == old(self).partial_batch && final(self).pending_framer == old(self).pending_framer && final(self).security_mechanism == old(self).security_mechanism"),
      ],
      hints=[("bc", "@fn_start", 0, "", "broadcast use lemma_delivered_push, lemma_sends_push, lemma_n_gated_push;")]),
-  Fn(EN, "on_tick", impl=IMPL, emit_impl="impl ZmtpEngine",
+  Fn(EN, "on_tick", impl=IMPL, emit_impl="impl ZmtpEngine", safety_props=["C07", "C19"],
      ensures=[
        ("C19:no_heartbeat_outside_data_or_on_v2",
         "old(self).phase != ZmtpPhase::Data || old(self).version == Some(ZmtpVersion::V2) ==> r.net_actions@.len() == 0 && r.app_actions@.len() == 0 && final(self).phase == old(self).phase && final(self).waiting_for_pong == old(self).waiting_for_pong"),
@@ -375,4 +375,4 @@ parts = [
 ]
 
 FNS = {p.name: p for p in parts if isinstance(p, Fn)}
-unit = Unit("engine", ["C02", "C03", "C04", "C06", "C07", "C19"], parts, safety_props=["C02", "C07"], notes="ZmtpEngine state machine")
+unit = Unit("engine", ["C02", "C03", "C04", "C05", "C06", "C07", "C19"], parts, safety_props=["C02", "C07"], notes="ZmtpEngine state machine")
